@@ -3,6 +3,7 @@ import ast
 
 from .. import util
 from ..interp import Interp, Path, exc_value, is_exc, show, strip_sites, subterms
+from .. import slots
 from ..report import Undecided
 
 SELF = ("sym", "self")
@@ -107,7 +108,7 @@ def logger_rules(chk):
             chk.bad(rule, s.qual, "the record is emitted AFTER the write is applied: it reports the target's state from after the write", node=s.node, stmt="log-after-write")
             ok = False
         ct = logs[0][1][1]
-        if ct[1] != ("attr", ("attr", SELF, "_logger"), "log"):
+        if ct[1] != ("attr", ("attr", SELF, slots.logger_attr(prog, cls)), "log"):
             chk.bad(rule, s.qual, "the record is emitted through %s instead of the configured logger at the configured level" % show(ct[1]), node=s.node, stmt="log-call")
             ok = False
             continue
@@ -147,7 +148,7 @@ def logger_rules(chk):
         for none in (True, False):
             outs = Interp(prog, name_setter, decide=lambda it, p, t, none=none: none if t == ("isnone", ("sym", "value")) else None).run()
             for o in outs:
-                st = [e for e in o.path.events if e[0] == "store" and e[1] == ("attr", SELF, "_logger")]
+                st = [e for e in o.path.events if e[0] == "store" and e[1] == ("attr", SELF, slots.logger_attr(prog, cls))]
                 if len(st) != 1 or not (st[0][2][0] == "call" and st[0][2][1] == ("glob", "ext:logging.getLogger")):
                     chk.bad(rule, name_setter.qual, "the logger is not obtained by logging.getLogger(name)", node=name_setter.node, stmt="getLogger")
                     ok2 = False
